@@ -322,6 +322,9 @@ def check(run):
         ci = prog.cls(cq)
         h = ci.methods.get('__hash__')
         rc = ci.methods.get('__richcmp__')
+        if rc is not None:
+            from ..inline import prep, class_lookup
+            rc = prep(rc, class_lookup(prog, ci))
         if h is None or rc is None:
             raise AnalysisError('C19: %s lacks __hash__/__richcmp__' % cq)
         Kc = cq.rsplit('.', 1)[0] + '|' + ci.name + '|'
@@ -551,7 +554,11 @@ def _cmp_fields(e, boolop, cmpop):
     value is returned as 'field~'. None: not of that form."""
     vals = e.values if isinstance(e, ast.BoolOp) and isinstance(e.op, boolop) else [e]
     out = []
+    dual = {ast.Eq: ast.NotEq, ast.NotEq: ast.Eq}
     for v in vals:
+        if isinstance(v, ast.UnaryOp) and isinstance(v.op, ast.Not) and isinstance(v.operand, ast.Compare) and len(v.operand.ops) == 1 \
+                and isinstance(v.operand.ops[0], dual.get(cmpop, ())):
+            v = ast.Compare(left=v.operand.left, ops=[cmpop()], comparators=v.operand.comparators)
         if not (isinstance(v, ast.Compare) and len(v.ops) == 1 and isinstance(v.ops[0], cmpop)):
             return None
         l, r = v.left, v.comparators[0]
@@ -560,7 +567,7 @@ def _cmp_fields(e, boolop, cmpop):
             continue
         # f(self.a) == f(other.a)
         la = [x for x in ast.walk(l) if isinstance(x, ast.Attribute) and norm(x.value) == 'self']
-        ra = [x for x in ast.walk(r) if isinstance(x, ast.Attribute) and isinstance(x.value, ast.Name) and x.value.id != 'self']
+        ra = [x for x in ast.walk(r) if isinstance(x, ast.Attribute) and la and x.attr == la[0].attr and 'self' not in norm(x.value)]
         if len(la) == 1 and len(ra) == 1 and la[0].attr == ra[0].attr and not isinstance(l, ast.Attribute):
             out.append(la[0].attr + '~')
             continue
